@@ -17,8 +17,9 @@ FAMILY = Family(
     ],
     ops={('Point', '-', 'Point'): ('Slope', 'Point_sub'), ('Slope', '<', 'Slope'): ('bool', 'Slope_lt'), ('Slope', '>', 'Slope'): ('bool', 'Slope_gt'),
          ('Slope', '==', 'Slope'): ('bool', 'Slope_eq'), ('Slope', '!=', 'Slope'): ('bool', 'Slope_ne')},
-    struct_methods={('CanonicalSegment', 'CanonicalSegment'): FuncInfo('CanonicalSegment_make', 'CanonicalSegment')},
+    struct_methods={('CanonicalSegment', 'CanonicalSegment'): FuncInfo('CanonicalSegment_make', 'CanonicalSegment'), ('OPLM', 'OPLM'): FuncInfo('OPLM_ctor', 'void')},
     typenames={'X', 'Y', 'SX', 'SY', 'Point', 'Slope', 'CanonicalSegment', 'K'},
+    templates={'OptimalPiecewiseLinearModel'},
     verbatim=[(HPP, 'Slope', 0, 'operator<', 0, 'return dy * p.dx < dx * p.dy;'), (HPP, 'Slope', 0, 'operator>', 0, 'return dy * p.dx > dx * p.dy;'),
               (HPP, 'Slope', 0, 'operator==', 0, 'return dy * p.dx == dx * p.dy;'), (HPP, 'Slope', 0, 'operator!=', 0, 'return dy * p.dx != dx * p.dy;'),
               (HPP, 'Point', 0, 'operator-', 0, 'return {SX(x) - p.x, SY(y) - p.y};')],
@@ -39,11 +40,18 @@ F('OPLM_add_point', HPP, 'add_point', '_Bool OPLM_add_point(OPLM *self, X x, Y y
 F('OPLM_cross', HPP, 'cross', 'SY OPLM_cross(const OPLM *self, const Point *O, const Point *A, const Point *B)', cls='OptimalPiecewiseLinearModel', self_cls='OPLM',
   ret='SY', params={'O': 'Ref<Point>', 'A': 'Ref<Point>', 'B': 'Ref<Point>'}, params_complete=True)
 F('OPLM_reset', HPP, 'reset', 'void OPLM_reset(OPLM *self)', cls='OptimalPiecewiseLinearModel', self_cls='OPLM', ret='void')
+F('make_segmentation', HPP, 'make_segmentation', 'size_t make_segmentation(size_t n, size_t start, size_t end, size_t epsilon, const X *in_data)', ret='size_t', ordinal=0,
+  params={'n': 'size_t', 'start': 'size_t', 'end': 'size_t', 'epsilon': 'size_t'}, env={'in': 'Fn:IN_AT', 'out': 'Fn:ms_out'},
+  typemap={'OptimalPiecewiseLinearModel<K, size_t>': 'OPLM', 'OptimalPiecewiseLinearModel<K,size_t>': 'OPLM'},
+  lambdas={'add_point': {'ret': 'void', 'params': {'x': 'X', 'y': 'size_t'}}},
+  must_fire=('lambda_lift', 'lambda_call', 'callback', 'if_constexpr', 'type_trait'))
+FUNCS['ms_out'] = FuncDesc('ms_out', HPP, 'out', 'void ms_out(CanonicalSegment cs)', ret='void')
 FUNCS['Slope_lt'] = FuncDesc('Slope_lt', HPP, 'operator<', '_Bool Slope_lt(Slope a, Slope p)', ret='bool')
 FUNCS['Slope_gt'] = FuncDesc('Slope_gt', HPP, 'operator>', '_Bool Slope_gt(Slope a, Slope p)', ret='bool')
 FUNCS['OPLM_get_segment'] = FuncDesc('OPLM_get_segment', HPP, 'get_segment', 'CanonicalSegment OPLM_get_segment(OPLM *self)', ret='CanonicalSegment')
 
 PRELUDE = r'''
+#include <math.h>
 PGMV_DEF_MINMAX(X)
 /* Point / Slope operators of the class, rendered by value (they are one-line expressions; Slope comparisons are exact cross products) */
 '''
@@ -64,5 +72,5 @@ def pinst(x, y='size_t'):
     sx = 'int64_t' if x in ('uint32_t', 'int32_t', 'uint16_t', 'int16_t', 'uint8_t', 'int8_t') else '__int128'
     lim = {'uint32_t': ('UINT32_MAX', '0'), 'uint64_t': ('UINT64_MAX', '0'), 'int64_t': ('INT64_MAX', 'INT64_MIN'), 'int32_t': ('INT32_MAX', 'INT32_MIN')}[x]
     return {'name': '%s_%s' % (x, y), 'defs': {'X': x, 'Y': y, 'SX': sx, 'SY': '__int128' if y == 'size_t' else 'int64_t',
-                                                'PGMV_LIMITS_X_max': lim[0], 'PGMV_LIMITS_X_lowest': lim[1],
+                                                'PGMV_LIMITS_X_max': lim[0], 'PGMV_LIMITS_X_lowest': lim[1], 'PGMV_LIMITS_X_infinity': '((X)0)',
                                                 'PGMV_LIMITS_Y_max': 'SIZE_MAX' if y == 'size_t' else 'INT32_MAX', 'PGMV_LIMITS_Y_lowest': '((Y)0)' if y == 'size_t' else 'INT32_MIN'}}
